@@ -35,10 +35,10 @@ def install(ctx):
     probe.attach(Fitter, 'fit', ensure=fit_post)
 
 
-def distance_range(rng, step, exact=False):
+def distance_range(rng, step, exact=False, a=None):
     if exact:
         # ends that are exact powers of ten, with a dyadic step: the width is an exact multiple of the step in any arithmetic
-        a = int(rng.integers(-2, 2))
+        a = int(rng.integers(-2, 2)) if a is None else a
         return float(10.0 ** a), float(10.0 ** (a + int(rng.integers(1, 3)))), 'exact-multiple'
     dmin = float(gen.loguniform(rng, 0.05, 20.0))
     kind = str(rng.choice(['equal', 'substep', 'multiple', 'wide', 'wide', 'narrow']))
@@ -69,7 +69,8 @@ def run(ctx):
                'chi^2 ties between distances: any minimiser accepted')
     ctx.require_events('Fitter.__init__:post', 'Fitter.fit:post', 'grid_checked')
     ctx.require_regimes('step:written-as-integer', 'range:exact-multiple-of-step', 'limit_penalised', 'unit:flux-not-mJy', 'apertures:per-band-tables', 'n=1', 'n=2', 'n>2', 'beyond_table', 'av_clipped', 'av_interior', 'best_first', 'best_mid',
-                        'best_last', 'style:v1', 'style:v2name', 'style:v2wav', 'memmap_on', 'memmap_off', 'unit:pc', 'unit:cm', 'angle:arcmin', 'angle:deg')
+                        'best_last', 'style:v1', 'style:v2name', 'style:v2wav', 'memmap_on', 'memmap_off', 'unit:pc', 'unit:cm', 'angle:arcmin', 'angle:deg',
+                        'aperture:exactly-smallest-at-dmin')
     n_pkg = 14 if ctx.quick else 160
     n_rng = 3
     n_src = 12 if ctx.quick else 25
@@ -87,6 +88,13 @@ def run(ctx):
             step = 1          # written to models.conf as 'logd_step = 1' (no decimal point)
             ctx.regime('step:written-as-integer')
         aps = gen.aperture_table(rng, n_ap)
+        # packages with a dyadic step get a smallest aperture that one band will hit *exactly* at dmin (theta*dmin equal to the
+        # smallest tabulated aperture is inside the quantifier): th0 arcsec x 10**(a+3) pc, all exactly representable
+        a_exact, th0 = None, None
+        if ip % 4 == 3:
+            cands = [(a_, t_) for a_ in (1, 0, -1, -2) for t_ in (4.0, 2.0, 1.0, 0.5) if t_ * 10.0 ** (a_ + 3) < 0.9 * aps[1]]
+            a_exact, th0 = cands[int(rng.integers(len(cands)))] if cands else (-2, 0.5)
+            aps[0] = th0 * 10.0 ** (a_exact + 3)
         conv = gen.conv_grid(rng, n_models, n_bands, n_ap=n_ap)
         if fmt == 'E':
             conv, aps, wav = pkg.r32(conv), pkg.r32(aps), pkg.r32(wav)
@@ -137,7 +145,7 @@ def run(ctx):
 
         for ir in range(n_rng):
             exact = step in (0.125, 0.25, 0.5, 1.0) and ir == 0
-            dmin, dmax, kind = distance_range(rng, step, exact=exact)
+            dmin, dmax, kind = distance_range(rng, step, exact=exact, a=a_exact if exact else None)
             if exact:
                 ctx.regime('range:exact-multiple-of-step')
             # apertures: theta such that theta*dmin_pc sits inside the table, some pushing beyond a_max at dmax
@@ -151,6 +159,9 @@ def run(ctx):
                 else:
                     a_at_dmin = float(gen.loguniform(rng, aps[0] * 1.001, aps[-1]))
                 theta[f] = max(a_at_dmin, aps[0] * (1 + 2e-6)) / (dmin * 1000.0)
+            if exact and th0 is not None:
+                theta[0] = th0          # theta*dmin is exactly the smallest tabulated aperture of band 0
+                ctx.regime('aperture:exactly-smallest-at-dmin')
             unit = rng.choice(['kpc', 'pc', 'cm']) if not exact else 'kpc'          # (a unit conversion would spoil the exact ends)
             ctx.regime('unit:' + str(unit))
             dunit = {'kpc': u.kpc, 'pc': u.pc, 'cm': u.cm}[str(unit)]
@@ -179,6 +190,8 @@ def run(ctx):
                     ctx.event('too_small_accepted(outside the quantifier)')
             # apertures may be given in any angle unit; the A_V range is a constructor argument: one Fitter per range
             aunit = [u.arcsec, u.arcsec, u.arcmin, u.deg][int(rng.integers(4))]
+            if exact:
+                aunit = u.arcsec          # (a unit round trip of theta would spoil the exact product)
             ctx.regime('angle:' + str(aunit))
             ranges = [(-1e3, 1e3), (9.0, 40.0), (-25.0, 5.0), (0, 40), (7.5, 7.5)]
             fitters = []
